@@ -1,14 +1,11 @@
 (* C14 — property theorems (statements only; proofs in Proofs*.v).
    lgam / lerfc / gamP / erfc are universally quantified: nothing depends on which functions they are;
    the normal-cdf theorems carry their hypotheses about erfc explicitly.
-   *_partial: the part of the property that holds for a family whose remaining part is REFUTED on the
-   faithful model (chi-squared: no support guard, no constructor validation -> chisq_*_refuted;
-   categorical: truncation / index panic / unnormalised weights -> categorical_*_refuted).
-   *_refuted: known findings (corpus/C14/known_findings_proposed.json). *)
+   *_regress: the witnesses of the round-1 findings fixed in /repo, with the values the property demands. *)
 From Coq Require Import Reals ZArith Bool List.
 From Coquelicot Require Import Coquelicot.
 From ADV Require Import Base.Num C14.ER C14.Model C14.Spec C14.Corr.
-From ADV Require C14.ProofsCont C14.ProofsDisc C14.ProofsNorm C14.ProofsCdf C14.ProofsRefuted.
+From ADV Require C14.ProofsCont C14.ProofsDisc C14.ProofsNorm C14.ProofsCdf C14.ProofsCdf2 C14.ProofsRegress.
 Import ListNotations.
 Open Scope R_scope.
 
@@ -52,8 +49,8 @@ Theorem gengamma_formula :
   forall (lgam : R -> R) (a d p : R), gengamma_valid a d p -> exists g : gg_d, gg_new lgam a d p = Some g /\ (forall x : R, 0 < x -> gg_logpdf g x = Val (Fin (ln (gengamma_pdf lgam a d p x)))) /\ (forall x : R, x <= 0 -> gg_logpdf g x = Val NInf).
 Proof. exact ProofsCont.gengamma_formula. Qed.
 
-Theorem chisq_formula_partial :
-  forall (lgam : R -> R) (k : R), chisq_valid k -> exists d : chi_d, chi_new lgam k = Some d /\ (forall x : R, 0 < x -> chi_logpdf d x = Val (Fin (ln (chisq_pdf lgam k x)))).
+Theorem chisq_formula :
+  forall (lgam : R -> R) (k : R), chisq_valid k -> exists d : chi_d, chi_new lgam k = Some d /\ (forall x : R, 0 < x -> chi_logpdf d x = Val (Fin (ln (chisq_pdf lgam k x)))) /\ (forall x : R, x < 0 -> chi_logpdf d x = Val NInf) /\ (2 < k -> chi_logpdf d 0 = Val NInf) /\ (k = 2 -> chi_logpdf d 0 = Val (Fin (ln (/ (2 * Gam lgam 1))))) /\ (k < 2 -> chi_logpdf d 0 = Val PInf).
 Proof. exact ProofsCont.chisq_formula. Qed.
 
 Theorem beta_formula :
@@ -80,9 +77,13 @@ Theorem binomial_formula :
   forall (lgam : R -> R) (theta : R) (n : Z), 0 < theta < 1 -> (0 <= n)%Z -> exists d : bin_d, bin_new lgam theta n = Some d /\ (forall k : Z, (0 <= k <= n)%Z -> bin_logpdf lgam d (IZR k) = Val (Fin (ln (binomial_pmf lgam theta n k)))) /\ (forall k : Z, (k < 0)%Z \/ (n < k)%Z -> bin_logpdf lgam d (IZR k) = Val NInf) /\ (forall x : R, is_intb x = false -> bin_logpdf lgam d x = Val NInf).
 Proof. exact ProofsDisc.binomial_formula. Qed.
 
-Theorem categorical_formula_partial :
-  forall theta : list R, theta <> [] -> List.Forall (fun t : R => 0 < t) theta -> exists d : list ER, cat_new theta = Some d /\ (forall k : Z, (0 <= k < Z.of_nat (length theta))%Z -> cat_logpdf d (IZR k) = Val (Fin (ln (nth (Z.to_nat k) theta 0)))).
+Theorem categorical_formula :
+  forall theta : list R, theta <> [] -> List.Forall (fun t : R => 0 < t) theta -> exists d : list ER, cat_new theta = Some d /\ (forall k : Z, (0 <= k < Z.of_nat (length theta))%Z -> cat_logpdf d (IZR k) = Val (Fin (ln (nth (Z.to_nat k) theta 0)))) /\ (forall k : Z, (k < 0)%Z \/ (Z.of_nat (length theta) <= k)%Z -> cat_logpdf d (IZR k) = Val NInf) /\ (forall x : R, is_intb x = false -> cat_logpdf d x = ErrInt).
 Proof. exact ProofsDisc.categorical_formula. Qed.
+
+Theorem geometric_boundary :
+  exists d : geo_d, geo_new 1 = Some d /\ geo_logpdf d 0 = Val (Fin 0) /\ (forall k : Z, (0 < k)%Z -> geo_logpdf d (IZR k) = Val NInf).
+Proof. exact ProofsDisc.geometric_boundary. Qed.
 
 Theorem delta_formula :
   forall X x : R, delta_logpdf X x = (if Req_EM_T x X then Val (Fin 0) else Val NInf).
@@ -111,6 +112,18 @@ Proof. exact ProofsCont.pareto_ctor. Qed.
 Theorem cauchy_ctor :
   forall mu sigma : R, cau_new mu sigma = None <-> ~ cauchy_valid mu sigma.
 Proof. exact ProofsCont.cauchy_ctor. Qed.
+
+Theorem laplace_ctor :
+  forall mu sigma : R, lap_new mu sigma = None <-> ~ laplace_valid mu sigma.
+Proof. exact ProofsCont.laplace_ctor. Qed.
+
+Theorem powerlaw_ctor :
+  forall alpha xmin : R, pl_new alpha xmin = None <-> ~ powerlaw_valid alpha xmin.
+Proof. exact ProofsCont.powerlaw_ctor. Qed.
+
+Theorem chisq_ctor :
+  forall (lgam : R -> R) (k : R), chi_new lgam k = None <-> ~ chisq_valid k.
+Proof. exact ProofsCont.chisq_ctor. Qed.
 
 Theorem gamma_ctor :
   forall (lgam : R -> R) (alpha beta : R), gam_new lgam alpha beta = None <-> ~ gamma_valid alpha beta.
@@ -172,53 +185,77 @@ Theorem normal_cdf_derive :
   forall erfc : R -> R, (forall y : R_AbsRing, is_derive erfc y (- (2 / sqrt PI) * exp (- (y * y)))) -> forall (mu sigma : R) (x : R_AbsRing), 0 < sigma -> is_derive (normal_cdf_spec erfc mu sigma) x (normal_pdf mu sigma x).
 Proof. exact ProofsCdf.normal_cdf_derive. Qed.
 
-Theorem laplace_logcdf_refuted :
-  forall (lgam lerfc : R -> R) (gamP : R -> R -> R), agrees (eval lgam lerfc gamP FLaplace LogCdf [0; 1] [] 0) (OVal (1 / 2) (1 / 1000)) /\ agrees (eval lgam lerfc gamP FLaplace Cdf [0; 1] [] 0) (OVal (16487 / 10000) (1 / 1000)) /\ ln (laplace_cdf_spec 0 1 0) < - (69 / 100).
-Proof. exact ProofsRefuted.laplace_logcdf_refuted. Qed.
+Theorem laplace_cdf :
+  forall mu sigma : R, laplace_valid mu sigma -> exists d : lap_d, lap_new mu sigma = Some d /\ (forall x : R, lap_logcdf d x = Val (Fin (ln (laplace_cdf_spec mu sigma x))) /\ lap_cdf d x = Val (Fin (laplace_cdf_spec mu sigma x))).
+Proof. exact ProofsCdf2.laplace_cdf. Qed.
 
-Theorem laplace_ctor_refuted :
-  forall (lgam lerfc : R -> R) (gamP : R -> R -> R), eval lgam lerfc gamP FLaplace Ctor [0; -1] [] 0 <> CtorErr /\ ~ laplace_valid 0 (-1).
-Proof. exact ProofsRefuted.laplace_ctor_refuted. Qed.
+Theorem laplace_cdf_range :
+  forall mu sigma x : R, 0 < sigma -> 0 < laplace_cdf_spec mu sigma x < 1.
+Proof. exact ProofsCdf2.laplace_cdf_range. Qed.
 
-Theorem powerlaw_logcdf_refuted :
-  forall (lgam lerfc : R -> R) (gamP : R -> R -> R), agrees (eval lgam lerfc gamP FPowerLaw Cdf [3; 1] [] (1 / 2)) (OVal 4 (1 / 1000)) /\ agrees (eval lgam lerfc gamP FPowerLaw Cdf [3; 1] [] 2) (OVal (1 / 4) (1 / 1000)) /\ Rabs (powerlaw_cdf_spec 3 1 2 - 3 / 4) <= 1 / 1000.
-Proof. exact ProofsRefuted.powerlaw_logcdf_refuted. Qed.
+Theorem laplace_cdf_monotone :
+  forall mu sigma x y : R, 0 < sigma -> x <= y -> laplace_cdf_spec mu sigma x <= laplace_cdf_spec mu sigma y.
+Proof. exact ProofsCdf2.laplace_cdf_monotone. Qed.
 
-Theorem powerlaw_ctor_refuted :
-  forall (lgam lerfc : R -> R) (gamP : R -> R -> R), agrees (eval lgam lerfc gamP FPowerLaw Ctor [1 / 2; -1] [] 0) (OVal 0 0) /\ ~ powerlaw_valid (1 / 2) (-1).
-Proof. exact ProofsRefuted.powerlaw_ctor_refuted. Qed.
+Theorem laplace_cdf_derive :
+  forall mu sigma x : R, 0 < sigma -> x <> mu -> is_derive (laplace_cdf_spec mu sigma) x (laplace_pdf mu sigma x).
+Proof. exact ProofsCdf2.laplace_cdf_derive. Qed.
 
-Theorem chisq_support_refuted :
-  forall (lgam lerfc : R -> R) (gamP : R -> R -> R), agrees (eval lgam lerfc gamP FChiSquared LogPdf [3] [] (-1)) ONaN /\ agrees (eval lgam lerfc gamP FChiSquared LogPdf [2] [] 0) ONaN.
-Proof. exact ProofsRefuted.chisq_support_refuted. Qed.
+Theorem powerlaw_cdf :
+  forall alpha xmin : R, powerlaw_valid alpha xmin -> exists d : pl_d, pl_new alpha xmin = Some d /\ (forall x : R, xmin < x -> pl_logcdf d x = Val (Fin (ln (powerlaw_cdf_spec alpha xmin x))) /\ pl_cdf d x = Val (Fin (powerlaw_cdf_spec alpha xmin x))) /\ (forall x : R, x <= xmin -> pl_logcdf d x = Val NInf /\ pl_cdf d x = Val (Fin 0)).
+Proof. exact ProofsCdf2.powerlaw_cdf. Qed.
 
-Theorem chisq_ctor_refuted :
-  forall (lgam lerfc : R -> R) (gamP : R -> R -> R), agrees (eval lgam lerfc gamP FChiSquared Ctor [-3] [] 0) (OVal 0 0) /\ ~ chisq_valid (-3).
-Proof. exact ProofsRefuted.chisq_ctor_refuted. Qed.
+Theorem powerlaw_cdf_at_xmin :
+  forall alpha xmin : R, 0 < xmin -> powerlaw_cdf_spec alpha xmin xmin = 0.
+Proof. exact ProofsCdf2.powerlaw_cdf_at_xmin. Qed.
 
-Theorem categorical_support_refuted :
-  forall (lgam lerfc : R -> R) (gamP : R -> R -> R), agrees (eval lgam lerfc gamP FCategorical LogPdf [1 / 4; 1 / 4; 1 / 2] [] (-1 + 1 / 2)) (OVal (- (13863 / 10000)) (1 / 1000)) /\ agrees (eval lgam lerfc gamP FCategorical LogPdf [1 / 4; 1 / 4; 1 / 2] [] 3) OPanic.
-Proof. exact ProofsRefuted.categorical_support_refuted. Qed.
+Theorem powerlaw_cdf_monotone :
+  forall alpha xmin x y : R, powerlaw_valid alpha xmin -> xmin <= x -> x <= y -> 0 <= powerlaw_cdf_spec alpha xmin x <= powerlaw_cdf_spec alpha xmin y /\ powerlaw_cdf_spec alpha xmin y < 1.
+Proof. exact ProofsCdf2.powerlaw_cdf_monotone. Qed.
 
-Theorem categorical_cdf_refuted :
-  forall (lgam lerfc : R -> R) (gamP : R -> R -> R), agrees (eval lgam lerfc gamP FCategorical Cdf [1] [] 0) (OVal 2 (1 / 1000)) /\ agrees (eval lgam lerfc gamP FCategorical Cdf [1 / 4; 1 / 4; 1 / 2] [] (-2)) (OVal 1 (1 / 1000)).
-Proof. exact ProofsRefuted.categorical_cdf_refuted. Qed.
+Theorem gpareto_cdf :
+  forall mu sigma xi : R, gpareto_valid mu sigma xi -> exists d : gp_d, gp_new mu sigma xi = Some d /\ (forall x : R, mu < x -> (xi < 0 -> x < mu - sigma / xi) -> gp_logcdf d x = Val (Fin (ln (gpareto_cdf_spec mu sigma xi x))) /\ gp_cdf d x = Val (Fin (gpareto_cdf_spec mu sigma xi x))) /\ (forall x : R, x < mu -> gp_logcdf d x = Val NInf /\ gp_cdf d x = Val (Fin 0)) /\ (forall x : R, xi < 0 -> mu - sigma / xi < x -> gp_logcdf d x = Val (Fin 0) /\ gp_cdf d x = Val (Fin 1)).
+Proof. exact ProofsCdf2.gpareto_cdf. Qed.
 
-Theorem binomial_boundary_refuted :
-  forall (lgam lerfc : R -> R) (gamP : R -> R -> R), agrees (eval lgam lerfc gamP FBinomial LogPdf [0] [5%Z] 0) ONaN /\ binomial_valid 0 5.
-Proof. exact ProofsRefuted.binomial_boundary_refuted. Qed.
+Theorem gev_cdf :
+  forall mu sigma xi : R, gev_valid mu sigma xi -> exists d : gev_d, gev_new mu sigma xi = Some d /\ (forall x : R, gev_support mu sigma xi x -> gev_logcdf d x = Val (Fin (ln (gev_cdf_spec mu sigma xi x))) /\ gev_cdf d x = Val (Fin (gev_cdf_spec mu sigma xi x))) /\ (forall x : R, ~ gev_support mu sigma xi x -> xi < 0 -> gev_logcdf d x = Val (Fin 0) /\ gev_cdf d x = Val (Fin 1)) /\ (forall x : R, ~ gev_support mu sigma xi x -> 0 <= xi -> gev_logcdf d x = Val NInf /\ gev_cdf d x = Val (Fin 0)).
+Proof. exact ProofsCdf2.gev_cdf. Qed.
 
-Theorem geometric_boundary_refuted :
-  forall (lgam lerfc : R -> R) (gamP : R -> R -> R), agrees (eval lgam lerfc gamP FGeometric LogPdf [1] [] 0) ONaN /\ geometric_valid 1.
-Proof. exact ProofsRefuted.geometric_boundary_refuted. Qed.
+Theorem gev_cdf_range :
+  forall mu sigma xi x : R, 0 < gev_cdf_spec mu sigma xi x < 1.
+Proof. exact ProofsCdf2.gev_cdf_range. Qed.
 
-Theorem gpareto_cdf_upper_refuted :
-  forall (lgam lerfc : R -> R) (gamP : R -> R -> R), agrees (eval lgam lerfc gamP FGPareto Cdf [2; 3 / 4; -1] [] 5) (OVal 0 0) /\ agrees (eval lgam lerfc gamP FGPareto Cdf [2; 3 / 4; -1] [] (5 / 2)) (OVal (2 / 3) (1 / 1000)).
-Proof. exact ProofsRefuted.gpareto_cdf_upper_refuted. Qed.
+Theorem gamma_cdf :
+  forall (lgam : R -> R) (gamP : R -> R -> R) (alpha beta : R), gamma_valid alpha beta -> exists d : gam_d, gam_new lgam alpha beta = Some d /\ (forall x : R, 0 < x -> gam_cdf gamP d x = Val (Fin (gamP alpha (x * beta))) /\ gam_logcdf gamP d x = Val (elog (Fin (gamP alpha (x * beta))))) /\ (forall x : R, x <= 0 -> gam_cdf gamP d x = Val (Fin 0) /\ gam_logcdf gamP d x = Val NInf).
+Proof. exact ProofsCdf2.gamma_cdf. Qed.
 
-Theorem gev_cdf_upper_refuted :
-  forall (lgam lerfc : R -> R) (gamP : R -> R -> R), agrees (eval lgam lerfc gamP FGev Cdf [0; 1; -1] [] 2) (OVal 0 0) /\ agrees (eval lgam lerfc gamP FGev Cdf [0; 1; -1] [] (1 / 2)) (OVal (6065 / 10000) (1 / 1000)).
-Proof. exact ProofsRefuted.gev_cdf_upper_refuted. Qed.
+Theorem chisq_cdf :
+  forall (lgam : R -> R) (gamP : R -> R -> R) (k : R), chisq_valid k -> exists d : chi_d, chi_new lgam k = Some d /\ (forall x : R, 0 < x -> chi_cdf gamP d x = Val (Fin (gamP (k / 2) (x / 2))) /\ chi_logcdf gamP d x = Val (elog (Fin (gamP (k / 2) (x / 2))))) /\ (forall x : R, x <= 0 -> chi_cdf gamP d x = Val (Fin 0) /\ chi_logcdf gamP d x = Val NInf).
+Proof. exact ProofsCdf2.chisq_cdf. Qed.
+
+Theorem laplace_cdf_regress :
+  forall (lgam lerfc : R -> R) (gamP : R -> R -> R), agrees (eval lgam lerfc gamP FLaplace LogCdf [0; 1] [] 0) (OVal (- (6931 / 10000)) (1 / 1000)) /\ agrees (eval lgam lerfc gamP FLaplace Cdf [0; 1] [] 0) (OVal (1 / 2) (1 / 1000)) /\ agrees (eval lgam lerfc gamP FLaplace Cdf [0; 1] [] 1) (OVal (8161 / 10000) (1 / 1000)) /\ agrees (eval lgam lerfc gamP FLaplace Ctor [0; -1] [] 0) OCtorErr.
+Proof. exact ProofsRegress.laplace_cdf_regress. Qed.
+
+Theorem powerlaw_cdf_regress :
+  forall (lgam lerfc : R -> R) (gamP : R -> R -> R), agrees (eval lgam lerfc gamP FPowerLaw Cdf [3; 1] [] (1 / 2)) (OVal 0 0) /\ agrees (eval lgam lerfc gamP FPowerLaw Cdf [3; 1] [] 2) (OVal (3 / 4) (1 / 1000)) /\ agrees (eval lgam lerfc gamP FPowerLaw Ctor [1 / 2; 1] [] 0) OCtorErr /\ agrees (eval lgam lerfc gamP FPowerLaw Ctor [3; -1] [] 0) OCtorErr.
+Proof. exact ProofsRegress.powerlaw_cdf_regress. Qed.
+
+Theorem chisq_regress :
+  forall (lgam lerfc : R -> R) (gamP : R -> R -> R), agrees (eval lgam lerfc gamP FChiSquared LogPdf [3] [] (-1)) ONInf /\ (at1 lgam 1 0 -> agrees (eval lgam lerfc gamP FChiSquared LogPdf [2] [] 0) (OVal (- (6931 / 10000)) (1 / 1000))) /\ agrees (eval lgam lerfc gamP FChiSquared Ctor [-3] [] 0) OCtorErr /\ agrees (eval lgam lerfc gamP FChiSquared Cdf [3] [] (-1)) (OVal 0 0) /\ agrees (eval lgam lerfc gamP FGamma Cdf [2; 3] [] (-1)) (OVal 0 0) /\ agrees (eval lgam lerfc gamP FGamma LogCdf [2; 3] [] 0) ONInf.
+Proof. exact ProofsRegress.chisq_regress. Qed.
+
+Theorem categorical_regress :
+  forall (lgam lerfc : R -> R) (gamP : R -> R -> R), agrees (eval lgam lerfc gamP FCategorical LogPdf [1 / 4; 1 / 4; 1 / 2] [] (-1 + 1 / 2)) OErrInt /\ agrees (eval lgam lerfc gamP FCategorical LogPdf [1 / 4; 1 / 4; 1 / 2] [] 3) ONInf /\ agrees (eval lgam lerfc gamP FCategorical Cdf [1] [] 0) (OVal 1 (1 / 1000)) /\ agrees (eval lgam lerfc gamP FCategorical Cdf [1 / 4; 1 / 4; 1 / 2] [] (-2)) (OVal 0 0) /\ agrees (eval lgam lerfc gamP FCategorical Cdf [1 / 4; 1 / 4; 1 / 2] [] 7) (OVal 1 (1 / 1000)).
+Proof. exact ProofsRegress.categorical_regress. Qed.
+
+Theorem boundary_regress :
+  forall (lgam lerfc : R -> R) (gamP : R -> R -> R), (at1 lgam 1 0 -> at1 lgam 6 (ln 120) -> agrees (eval lgam lerfc gamP FBinomial LogPdf [0] [5%Z] 0) (OVal 0 (1 / 1000))) /\ agrees (eval lgam lerfc gamP FBinomial LogPdf [0] [5%Z] 2) ONInf /\ agrees (eval lgam lerfc gamP FGeometric LogPdf [1] [] 0) (OVal 0 (1 / 1000)) /\ agrees (eval lgam lerfc gamP FGeometric LogPdf [1] [] 3) ONInf.
+Proof. exact ProofsRegress.boundary_regress. Qed.
+
+Theorem upper_endpoint_regress :
+  forall (lgam lerfc : R -> R) (gamP : R -> R -> R), agrees (eval lgam lerfc gamP FGPareto Cdf [2; 3 / 4; -1] [] 5) (OVal 1 (1 / 1000)) /\ agrees (eval lgam lerfc gamP FGPareto Cdf [2; 3 / 4; -1] [] (5 / 2)) (OVal (2 / 3) (1 / 1000)) /\ agrees (eval lgam lerfc gamP FGev Cdf [0; 1; -1] [] 2) (OVal 1 (1 / 1000)) /\ agrees (eval lgam lerfc gamP FGev Cdf [0; 1; -1] [] (1 / 2)) (OVal (6065 / 10000) (1 / 1000)).
+Proof. exact ProofsRegress.upper_endpoint_regress. Qed.
 
 From Coq Require Import Lra.
 (* the hypotheses are satisfiable by non-trivial instances *)
